@@ -13,6 +13,8 @@ import (
 	"unsafe"
 
 	null "github.com/unravelin/null/v5"
+
+	"verifh/ref"
 )
 
 // TypeSpec is a Go type as data.
@@ -121,6 +123,21 @@ var basic = map[string]reflect.Type{
 	"unsafeptr": reflect.TypeOf(unsafe.Pointer(nil)),
 }
 
+// CustomKind is a TypeSpec leaf kind backed by a named Go type with a
+// registered custom codec (C11's GCPoint, C20's custom types).
+type CustomKind struct {
+	Type reflect.Type
+	// Schema is the schema registered for the type.
+	Schema ref.Schema
+	// Base is the built-in kind whose ValueSpec fields carry the value (int64, string, bytes).
+	Base string
+	Set  func(dst reflect.Value, v ValueSpec)
+	Abs  func(v reflect.Value) AbsVal
+}
+
+// Custom holds the registered custom kinds by TypeSpec.K.
+var Custom = map[string]*CustomKind{}
+
 // Catalogue lets package cat register its compile-time types without an import cycle.
 var Catalogue = map[string]reflect.Type{}
 
@@ -134,6 +151,9 @@ func Build(t TypeSpec) reflect.Type {
 	}
 	if bt, ok := basic[t.K]; ok {
 		return bt
+	}
+	if ck, ok := Custom[t.K]; ok {
+		return ck.Type
 	}
 	switch t.K {
 	case "ptr":
